@@ -75,6 +75,11 @@ def flag_definition(ctx, rule='C02-R3'):
                   facts={'guard': T.show(e.guard, maxlen=400)}, instance='flag iff |cropped| > MAX_HITS_OKTA0')
     # _ncd_or_nsc reads only the flag
     nq = 'ampycloud.data.CeiloChunk._ncd_or_nsc'
+    if nq not in p.funcs:
+        # no separate helper (inlined into metar_msg): the NCD / NSC selection by the flag is judged on the exits of
+        # metar_msg itself (truth table, C02-R2)
+        ctx.ok(rule, 'NCD / NSC selection by the flag: no separate helper, judged on the exits of metar_msg (C02-R2)')
+        return
     nf = p.func(nq, rule)
     ret = fx.deep(nq)[1].ret
     want = ('phi', ((FLAG, C('NSC')), (T.mk_not(FLAG), C('NCD'))))
